@@ -165,10 +165,12 @@ PROPS["C18"] = {
         "quick": [
             {"name": "ticker", "run": "^TestAlignedTickerValues$", "checks": 2400, "shards": 8},
             {"name": "flusher", "run": "^TestAlignedFlusher$", "checks": 2400, "shards": 8},
+            {"name": "jumps", "run": "^TestAlignedFlusherJumps$", "checks": 2400, "shards": 8},
         ],
         "thorough": [
             {"name": "ticker", "run": "^TestAlignedTickerValues$", "checks": 160000, "shards": 8, "timeout": 1700},
             {"name": "flusher", "run": "^TestAlignedFlusher$", "checks": 160000, "shards": 8, "timeout": 1700},
+            {"name": "jumps", "run": "^TestAlignedFlusherJumps$", "checks": 160000, "shards": 8, "timeout": 1700},
         ],
     },
     "assumptions": [
